@@ -221,10 +221,18 @@ USAGE = ['missing-input', 'directory-input', 'no-command', 'missing-command', 'n
 
 @st.composite
 def e2e_case(draw):
-    kind = draw(st.sampled_from(['damaged-run', 'damaged-run', 'blackbox-run', 'broken-mutator', 'broken-apply', 'usage']))
+    kind = draw(st.sampled_from(['damaged-run', 'damaged-run', 'blackbox-run', 'broken-mutator', 'broken-apply', 'usage',
+                                 'deep-run']))
     base = gen_run.script(1, 4).map(lambda t: refreader.read(t, keep_comments=False))
     trees, ops = draw(gen_sexpr.damaged(base, 3))
     text = model.render_list(trees) + '\n'
+    if kind == 'deep-run':
+        depth = draw(st.sampled_from([350, 350, 1100]))
+        op = draw(st.sampled_from(['not', 'bvnot', '-']))
+        wrap = draw(st.sampled_from(['(assert %s)', '(assert (let ((l %s)) l))', '(define-fun g () Bool %s)']))
+        text = '(declare-const x Bool)\n' + (wrap % (('(' + op + ' ') * depth + 'x' + ')' * depth)) + '\n(check-sat)\n'
+        ops = [f'depth-{depth}']
+        kind = 'damaged-run'
     if draw(st.integers(0, 5)) == 0:
         text, _ = break_text(draw, text)
     sp = draw(gen_run.spec_for(text, kind=draw(st.sampled_from(['hash', 'mixed', 'monotone']))))
@@ -265,9 +273,12 @@ def run_e2e(case, acc, wd):
     kind = case['kind']
     classes = ['e2e-' + kind]
     if kind == 'damaged-run':
+        deep = any(o.startswith('depth-') for o in case.get('ops', []))
         r = e2e.run_ddsmt(wd, case['text'], case['spec'], case['opts'], mode='launcher',
-                          plan=dict(stop_on_repeat=True, max_accepts=150), wall_limit=120)
+                          plan=dict(stop_on_repeat=True, max_accepts=(12 if deep else 150)), wall_limit=120)
         classes.append(f'strategy-{case["opts"]["strategy"]}')
+        if deep:
+            classes.append('deeply-nested-input')
         if r.timed_out or r.after is None:
             acc.skip('e2e wall limit')
             return False, classes
@@ -405,8 +416,16 @@ def shard(ctx, acc):
     n = [0]
     total2 = 96 if ctx.quick else 2000
 
+    deep_runs = [0]
+    deep_budget = 1 if ctx.quick else 8
+
     def body2(case):
         n[0] += 1
+        if any(o.startswith('depth-') for o in case.get('ops', [])):
+            deep_runs[0] += 1
+            if deep_runs[0] > deep_budget:  # these take tens of seconds each
+                acc.skip('deep-run budget')
+                return
         wd = os.path.join(ctx.workdir, f'e2e{n[0]}')
         nt, classes = run_e2e(case, acc, wd)
         shutil.rmtree(wd, ignore_errors=True)
